@@ -426,8 +426,12 @@ def _int(eng, a, kw, st, fr, k, node):
         t = z3.If(v >= 0, z3.ToInt(v), -z3.ToInt(-v))
         return k(t, st)
     if isinstance(v, Opq):
-        # int(x) of a dynamic value: ValueError unless it is convertible (modelled: an int-valued thing converts to itself)
-        return k(v2int(v.t), st)
+        # int(x) of a dynamic value: TypeError for None; a value that is not integer-valued may raise ValueError
+        # (or convert, like 1.5 -> 1); an integer-valued thing converts to itself
+        from .engine import int2v
+        fr.on_raise(Exc("TypeError"), st.assume(v.t == NONE))
+        fr.on_raise(Exc("ValueError"), st.assume(z3.And(v.t != NONE, v.t != int2v(v2int(v.t)))))
+        return k(v2int(v.t), st.assume(v.t != NONE))
     if _is_z3(v) and z3.is_bool(v):
         return k(z3.If(v, 1, 0), st)
     raise Unsupported("int() of " + type(v).__name__)
